@@ -362,6 +362,49 @@ func runFaultsOpts(c *ECase, strict, files bool) (st eStats, err error) {
 		st.scansUnderFaults++
 		return nil
 	}
+	// checkSeek positions a fresh iterator with Seek(k) while failures may be active: the pair it
+	// lands on must be admissible for its key, and - if the iterator reports no error - no key
+	// that certainly exists may lie between k and the landing point
+	checkSeek := func(i int, k []byte) error {
+		var rk, rv []byte
+		var ok bool
+		var ierr error
+		if !ctl.do("iterator Seek", func() {
+			it := db.NewIterator(nil, nil)
+			defer it.Release()
+			if ok = it.Seek(k); ok {
+				rk, rv = append([]byte{}, it.Key()...), append([]byte{}, it.Value()...)
+			}
+			ierr = it.Error()
+		}) {
+			st.hung = true
+			return errHung
+		}
+		cmp := o.GetComparer()
+		if ok {
+			if cmp.Compare(rk, k) < 0 {
+				return fmt.Errorf("op #%d: Seek(%q) landed on the smaller key %q", i, k, rk)
+			}
+			if a := allowedFor(issued, string(rk)); !a.vals[string(rv)] {
+				return fmt.Errorf("op #%d: Seek(%q) landed on %q = %.40q which is neither the last successfully written value nor the value of a later failed write (iterator error: %v)", i, k, rk, rv, ierr)
+			}
+		}
+		if ierr != nil {
+			st.readErrors++
+			return nil
+		}
+		for ki := range c.Keys {
+			p := key(ki)
+			if cmp.Compare(p, k) < 0 || (ok && cmp.Compare(p, rk) >= 0) {
+				continue
+			}
+			if a := allowedFor(issued, string(p)); !a.absent {
+				return fmt.Errorf("op #%d: Seek(%q) landed on %q (valid=%v) without an error, skipping %q, whose last successful write stored a value that no later write could have removed", i, k, rk, ok, p)
+			}
+		}
+		st.scansUnderFaults++
+		return nil
+	}
 	armed, healed := false, false
 	for i := range c.Ops {
 		if i >= c.ArmAt && !armed {
@@ -453,6 +496,13 @@ func runFaultsOpts(c *ECase, strict, files bool) (st eStats, err error) {
 			}
 		case "get":
 			if err := checkRead(i, key(op.K)); err != nil {
+				if err == errHung {
+					return st, nil
+				}
+				return st, err
+			}
+		case "seek":
+			if err := checkSeek(i, key(op.K)); err != nil {
 				if err == errHung {
 					return st, nil
 				}
@@ -877,13 +927,13 @@ func drawECase(t *rapid.T, excluded map[string]bool) *ECase {
 	c.Cmp = rapid.SampledFrom([]string{"bytewise", "bytewise", "inv"}).Draw(t, "cmp")
 	c.Keys = gen.DrawKeyPool(t, 3, 20)
 	nk := len(c.Keys)
-	kinds := []string{"put", "put", "put", "put", "put", "put", "put", "del", "del", "batch", "batch", "bigbatch", "get", "get", "scan", "compact", "reopen", "tropen", "trcommit", "trdiscard", "bigtr"}
+	kinds := []string{"put", "put", "put", "put", "put", "put", "put", "del", "del", "batch", "batch", "bigbatch", "get", "get", "scan", "seek", "compact", "reopen", "tropen", "trcommit", "trdiscard", "bigtr"}
 	deep := rapid.IntRange(0, 2).Draw(t, "deep") == 0
 	if deep {
 		// many small tables over several levels, lots of tombstones
 		c.Opts.WriteBuffer, c.Opts.TableSize, c.Opts.TotalSize, c.Opts.TotalSizeMult = 256, 512, 1024, 2
 		c.Opts.L0Trigger, c.Opts.L0Slowdown, c.Opts.L0Pause = 2, 6, 8
-		kinds = []string{"put", "put", "put", "put", "put", "put", "del", "del", "del", "batch", "get", "scan", "compact", "reopen", "bigtr"}
+		kinds = []string{"put", "put", "put", "put", "put", "put", "del", "del", "del", "batch", "get", "scan", "seek", "compact", "reopen", "bigtr"}
 	}
 	if rapid.IntRange(0, 7).Draw(t, "setro") == 0 {
 		kinds = append(kinds, "setro")
@@ -903,7 +953,7 @@ func drawECase(t *rapid.T, excluded map[string]bool) *ECase {
 			for j := 0; j < n; j++ {
 				op.B = append(op.B, dbm.BOp{K: rapid.IntRange(0, nk-1).Draw(t, "bk")})
 			}
-		case "del", "get":
+		case "del", "get", "seek":
 			op.K = rapid.IntRange(0, nk-1).Draw(t, "k")
 		case "scan":
 			op.Slot = rapid.IntRange(0, 1).Draw(t, "backward")
@@ -974,6 +1024,8 @@ func drawECase(t *rapid.T, excluded map[string]bool) *ECase {
 		for j := 0; j < 4; j++ {
 			ops = append(ops, dbm.Op{T: "scan", Slot: rapid.IntRange(0, 1).Draw(t, "backward")})
 			ops = append(ops, dbm.Op{T: "get", K: rapid.IntRange(0, nk-1).Draw(t, "k")})
+			ops = append(ops, dbm.Op{T: "seek", K: rapid.IntRange(0, nk-1).Draw(t, "k")})
+			ops = append(ops, dbm.Op{T: "seek", K: rapid.IntRange(0, nk-1).Draw(t, "k")})
 		}
 		c.HealAt = len(ops)
 		ops = append(ops, dbm.Op{T: "scan", Slot: 1}, dbm.Op{T: "scan"})
